@@ -174,10 +174,12 @@ def oracle(run: runner.Run, oc: Outcome) -> None:
         t_gone = min([x for x in (op.t_killed, op.exit[0] if op.exit else None, op.t_stop_requested) if x is not None],
                      default=t_end)
         # ---- (1) pausing on what it was delivered ----
-        deliveries = []  # (t, rv) of peering states handed to this process
+        # (t, rv) of the peering states this process has looked at: "observed" is when its serial peering worker
+        # gets to the event, which can lag behind the delivery (every look may cost API calls: cleaning, touching)
+        deliveries = []
         for e in trace:
-            if e[2] == 'yield' and e[3] == actor and e[4] == 'clusterkopfpeerings' and e[8] is not None and e[6] != 'DELETED':
-                deliveries.append((e[1], str(e[8])))
+            if e[2] == 'peer-proc' and e[3] == actor and e[6] is not None and e[4] != 'DELETED':
+                deliveries.append((e[1], str(e[6])))
         must: list[tuple[float, float]] = []
         cur_from: Optional[float] = None
         cur_until = 0.0
@@ -207,7 +209,7 @@ def oracle(run: runner.Run, oc: Outcome) -> None:
                    min(y, b - 0.5) - max(x, a + SLACK) > 0.3]
             if bad:
                 oc.add('C13/not-paused', 'stream-open',
-                       f"{actor} (priority {prio}) was delivered a peering state with a live peer of higher-or-equal "
+                       f"{actor} (priority {prio}) looked at a peering state with a live peer of higher-or-equal "
                        f"priority at t={a:.3f} (valid until {b:.3f}) but kept/opened a widgets stream "
                        f"[{bad[0][0]:.3f}, {bad[0][1]:.3f}]", actor=actor)
             for c in run.calls:
